@@ -55,5 +55,6 @@ void harness(void)
     const char *r = path_iterate(p);
 
     __CPROVER_assert(C19_IT_POST(r, p), "path_iterate: contract clause C19_IT_POST (leave the current node, skip separators and single dots)");
+    __CPROVER_assert(C19_IT_POST_LIGHT(r, p), "path_iterate: contract clause C19_IT_POST_LIGHT (NULL iff empty, strict progress inside the string, never stops on a slash)");
     CANARY("path_iterate end reachable");
 }
